@@ -178,7 +178,7 @@ func TestVerifC38(t *testing.T) {
 		return ch
 	}
 	n := r.N(48, 1200)
-	gaps := []int{0, 1, 5, 20, 100, 300, 600, 900, 990, 1010, 1100, 1500, 2100}
+	gaps := []int{0, 1, 5, 11, 13, 15, 17, 20, 100, 300, 600, 900, 990, 1010, 1100, 1500, 2100}
 	ops := []string{"write", "replace", "recreate", "truncate-write"}
 	type job struct {
 		i        int
@@ -195,6 +195,14 @@ func TestVerifC38(t *testing.T) {
 			sc[0].GapMs = 0
 		}
 		jobs = append(jobs, job{i, sc, rng.IntN(3) == 0})
+	}
+	// boundary sweep: a second change at every offset around the watcher's two time constants (the 10 ms settle wait
+	// after an event and the 1 s minimum interval), after a first change that is notified at once
+	for g := 8; g <= 24; g++ {
+		jobs = append(jobs, job{len(jobs), []c38Step{{"write", 100}, {ops[g%len(ops)], g}}, false})
+	}
+	for g := 980; g <= 1030; g += 5 {
+		jobs = append(jobs, job{len(jobs), []c38Step{{"replace", 100}, {ops[(g/5)%len(ops)], g}}, g%2 == 0})
 	}
 	results := make([]c38Result, len(jobs))
 	var wg sync.WaitGroup
